@@ -10,6 +10,7 @@ import (
 	"strconv"
 	"strings"
 	"sync"
+	"sync/atomic"
 	"syscall"
 	"time"
 
@@ -29,19 +30,22 @@ import (
 // has not returned => deadlock. Without the witness the case is inconclusive.
 
 type c14Plan struct {
-	Seed   uint64
-	Plan   string
-	Exit   int
-	Kill   int
-	Binary bool
-	RunDir string // "" | "tmp" | "missing"
-	Via    string // RunCommand | InTotoRun | cli | relative-in-rundir
+	Seed    uint64
+	Plan    string
+	Exit    int
+	Kill    int
+	Binary  bool
+	OneLine bool   // printable characters only: each stream is one single line
+	RunDir  string // "" | "tmp" | "missing"
+	Via     string // RunCommand | InTotoRun | cli | relative-in-rundir
 }
 
 func (p c14Plan) args(helper string) []string {
 	a := []string{helper, "emit", "--seed", strconv.FormatUint(p.Seed, 10), "--plan", p.Plan}
 	if p.Binary {
 		a = append(a, "--binary")
+	} else if p.OneLine {
+		a = append(a, "--oneline")
 	}
 	if p.Kill != 0 {
 		a = append(a, "--kill", strconv.Itoa(p.Kill))
@@ -54,6 +58,12 @@ func (p c14Plan) args(helper string) []string {
 // expected regenerates the streams the plan produces.
 func (p c14Plan) expected() (string, string) {
 	var o, e []byte
+	mode := 0
+	if p.Binary {
+		mode = 1
+	} else if p.OneLine {
+		mode = 2
+	}
 	stdoutOpen, stderrOpen := true, true
 	for _, st := range strings.Split(p.Plan, ",") {
 		switch {
@@ -63,10 +73,10 @@ func (p c14Plan) expected() (string, string) {
 			stderrOpen = false
 		case strings.HasPrefix(st, "o:") && stdoutOpen:
 			n, _ := strconv.Atoi(st[2:])
-			o = append(o, core.Stream(p.Seed, 'o', len(o), n, p.Binary)...)
+			o = append(o, core.StreamOf(p.Seed, 'o', len(o), n, mode)...)
 		case strings.HasPrefix(st, "e:") && stderrOpen:
 			n, _ := strconv.Atoi(st[2:])
-			e = append(e, core.Stream(p.Seed, 'e', len(e), n, p.Binary)...)
+			e = append(e, core.StreamOf(p.Seed, 'e', len(e), n, mode)...)
 		}
 	}
 	return string(o), string(e)
@@ -336,6 +346,12 @@ func c14Plans(c *core.Ctx) []c14Plan {
 		}
 		add(p)
 	}
+	// output that is one single line, however long (no CR, no LF)
+	for _, n := range []int{65535, 65536, 65537, 100000, 200000, 1 << 20} {
+		for _, pl := range []string{fmt.Sprintf("o:%d", n), fmt.Sprintf("e:%d", n), fmt.Sprintf("o:%d,e:%d", n, n)} {
+			add(c14Plan{Plan: pl, Via: "RunCommand", OneLine: true})
+		}
+	}
 	// the same through InTotoRun and the CLI, and with a command given relative to the run directory
 	base := len(plans)
 	for i := 0; i < base; i++ {
@@ -366,11 +382,36 @@ func c14Plans(c *core.Ctx) []c14Plan {
 	return plans
 }
 
+var c14ThreadsEnded atomic.Int64
+
 func runC14(c *core.Ctx) {
 	intoto.VerifHook = c14Hook
 	// a quarter of the workers run single-threaded: the two pipe readers cannot run in parallel there
 	if c.Shard%4 == 0 {
 		runtime.GOMAXPROCS(1)
+	}
+	// another quarter lives in a process whose OS threads come and go: goroutines that lock their
+	// thread and end take the thread with them (a command must not care which thread started it)
+	if c.Shard%4 == 2 {
+		stopChurn := make(chan struct{})
+		defer close(stopChurn)
+		go func() {
+			for {
+				select {
+				case <-stopChurn:
+					return
+				default:
+				}
+				done := make(chan struct{})
+				go func() {
+					runtime.LockOSThread() // never unlocked: the thread ends with the goroutine
+					close(done)
+				}()
+				<-done
+				time.Sleep(500 * time.Microsecond)
+				c14ThreadsEnded.Add(1)
+			}
+		}()
 	}
 	plans := c14Plans(c)
 	helper := Helper(c)
@@ -455,6 +496,7 @@ func runC14(c *core.Ctx) {
 		}
 	}
 	c.Obs("commands_captured_exactly", exact)
+	c.Obs("os_threads_ended_while_commands_ran", c14ThreadsEnded.Load())
 	c.Obs("commands_with_more_than_a_pipe_buffer_captured_exactly", big)
 	if c.Shard == 0 {
 		c14Errors(c, helper)
@@ -621,7 +663,7 @@ func init() {
 	core.Register(&core.Property{
 		ID:    "C14",
 		Level: "exploration",
-		Rule: "commands `vhelper emit` with planned output: stdout x stderr sizes from {0, 1, 4095, 4096, 65535, 65536, 65537, 200000, 1 MiB (, 4 MiB thorough)} in both orders, alternating chunks of 1 / 4096 / 65537 bytes, one stream closed before the other is written, random sequences of 1-8 chunks with sizes around 4 KiB / 64 KiB / 128 KiB on either stream with optional pauses and early closes (80 quick / 3000 thorough), text (with CR, LF, TAB) and binary content, InTotoRun with line normalisation on and off, exit statuses 0..255 (16 values), death by signals 1,2,6,9,11,13,15, run directory empty or a temp dir, program given relative to the run directory; through RunCommand, InTotoRun (by-products) and the CLI `run` (by-products in the link file); unstartable and empty commands (also an inspection with an empty run list through RunInspections); a quarter of the workers run with GOMAXPROCS=1. Oracle: streams regenerated from the seed and compared byte for byte, exact exit status; hang = causal witness (a thread of the child blocked in write(2) on fd 1/2, CPU time unchanged over 3 samples, call not returned; pid from the cmd_started hook), otherwise inconclusive. " +
+		Rule: "commands `vhelper emit` with planned output: stdout x stderr sizes from {0, 1, 4095, 4096, 65535, 65536, 65537, 200000, 1 MiB (, 4 MiB thorough)} in both orders, alternating chunks of 1 / 4096 / 65537 bytes, one stream closed before the other is written, random sequences of 1-8 chunks with sizes around 4 KiB / 64 KiB / 128 KiB on either stream with optional pauses and early closes (80 quick / 3000 thorough), text (with CR, LF, TAB), binary content and single lines of 64 KiB - 1 MiB without any line break, InTotoRun with line normalisation on and off, exit statuses 0..255 (16 values), death by signals 1,2,6,9,11,13,15, run directory empty or a temp dir, program given relative to the run directory; through RunCommand, InTotoRun (by-products) and the CLI `run` (by-products in the link file); unstartable and empty commands (also an inspection with an empty run list through RunInspections); a quarter of the workers run with GOMAXPROCS=1, another quarter in a process whose OS threads keep ending (goroutines that lock their thread and return, about 1000 per second). Oracle: streams regenerated from the seed and compared byte for byte, exact exit status; hang = causal witness (a thread of the child blocked in write(2) on fd 1/2, CPU time unchanged over 3 samples, call not returned; pid from the cmd_started hook), otherwise inconclusive. " +
 			"non-trivial = a stream exceeds one pipe buffer (64 KiB) or a non-zero status; distinct = (via, size classes, order, exit, signal, run dir)",
 		Assumptions: []string{"Linux x86-64 /proc/<pid>/task/*/syscall is readable (we run as root)", "for death by signal only 'not reported as success' is required"},
 		Workers:     func(string) int { return 16 },
